@@ -16,7 +16,9 @@ EXPLANATION = (
     'when the discriminant is >= 0 (zero included), and the eigen-solver treats a block as a complex pair exactly when its '
     'sub-diagonal entry is non-zero -- so a real double eigenvalue can never be emitted as a pair with zero imaginary part; '
     '(D4) every exceptional shift added to the running total is subtracted from every diagonal entry of the active part (rows '
-    '0..iu inclusive) in the same branch -- necessary for the result to be similar to H itself. '
+    '0..iu inclusive) in the same branch -- necessary for the result to be similar to H itself; (D5) every division by the '
+    'input scale (largest magnitude, zero for the zero matrix) is unreachable when the scale is zero; (D6) the norm whose vanishing '
+    'triggers the zero-matrix short cut of the Schur class covers every entry of a Hessenberg matrix, sub-diagonal included. '
     'Does NOT decide backward stability, orthogonality of Z / U, or unit norm of eigenvectors (floating-point magnitudes).')
 ASSUMPTIONS = ['sqrt and abs return non-negative values; conversion of a real to std::complex sets the imaginary part to +0']
 
@@ -308,7 +310,172 @@ def exceptional_shift_accounting(ctx, rule='exceptional-shift-covers-active-diag
                       'shift %s accumulated and subtracted from rows 0..%s' % (show(amount), iu) if ok else why)
 
 
+def scale_divisors_guarded(ctx, rule='scale-divisor-guarded'):
+    """The decompositions scale their input by its largest magnitude.  That scale is zero for the zero matrix (which the
+    property's quantifier names), so every division by it must be unreachable when it is zero: dominated by a test of the scale
+    whose true branch leaves the function, or enclosed in a branch that tests it positive / non-zero.  Sibling agreement: the
+    classes that scale must agree on guarding."""
+    n = 0
+    for cls in ('Spectra::TridiagEigen', 'Spectra::UpperHessenbergEigen', 'Spectra::UpperHessenbergSchur'):
+        seen = set()
+        for fn in ctx.F.concrete():
+            if fn.cls != cls or not fn.cfg or fn.mangled in seen or fn.name != 'compute':
+                continue
+            seen.add(fn.mangled)
+            scales = {}
+            for x in fn.walk():
+                if x['k'] == 'DeclStmt':
+                    for d in x['decls']:
+                        if 'init' in d and 'var' in d:
+                            t = show(sym(fn, d['init'], inline=False))
+                            if 'maxCoeff' in t and fn.locals[d['var']]['type'].replace('const ', '') in ('double', 'float', 'long double'):
+                                scales[d['var']] = fn.locals[d['var']]['name']
+            for v, nm in scales.items():
+                divs = []
+                for x in fn.walk():
+                    if x['k'] in ('BinaryOperator', 'CXXOperatorCallExpr', 'CompoundAssignOperator') and x.get('op') in ('/', '/='):
+                        ops = fn.call_args(x) if x['k'] == 'CXXOperatorCallExpr' else [fn.nodes[c] for c in x['c']]
+                        r = fn.strip(ops[-1]) if ops else None
+                        if r is not None and r['k'] == 'DeclRefExpr' and r.get('var') == v:
+                            divs.append(x)
+                if not divs:
+                    continue
+                n += 1
+                guards = []
+                for i in fn.walk():
+                    if i['k'] == 'IfStmt' and any(y['k'] == 'DeclRefExpr' and y.get('var') == v for y in fn.walk(i['cond'])):
+                        c = sym(fn, i['cond'], inline=False)
+                        if c[0] in ('<', '<=', '==', '!='):
+                            guards.append((i, c))
+                bad = []
+                for dv in divs:
+                    ok = False
+                    for (i, c) in guards:
+                        scale_small = (c[0] in ('<', '<=') and c[1] == ('L', nm)) or (c[0] == '==' and ('L', nm) in c[1:])
+                        scale_big = (c[0] in ('<', '<=') and c[2] == ('L', nm) and c[0] == '<') or (c[0] == '!=' and ('L', nm) in c[1:] and ('lit', '0') in c[1:])
+                        if scale_small:
+                            # early exit: the true branch leaves, and the test dominates the division
+                            body = fn.nodes[i['then']]
+                            kids = fn.kids(body) if body['k'] == 'CompoundStmt' else [body]
+                            leaves = bool(kids) and (kids[-1]['k'] == 'ReturnStmt' or any(y['k'] == 'CXXThrowExpr' for y in fn.walk(kids[-1])))
+                            if leaves and not fn.within(dv, i['then']) and paths.dominated_by(fn, fn.pos_of(dv), lambda n_, i=i: fn.within(n_, i['cond'])):
+                                ok = True
+                            if i.get('else', -1) is not None and i.get('else', -1) >= 0 and fn.within(dv, i['else']):
+                                ok = True
+                        if scale_big and fn.within(dv, i['then']):
+                            ok = True
+                    if not ok:
+                        bad.append(fn.s(dv['id'])[:50])
+                ctx.check(not bad, rule, '%s::compute/%s' % (cls.replace('Spectra::', ''), nm), fn.qname,
+                          'every division by the scale is unreachable when the scale is zero (%d divisions)' % len(divs) if not bad else
+                          'division by the input scale `%s` without a zero test: for the zero matrix `%s` is 0/0 = NaN and the iteration runs on NaNs until its cap' % (nm, bad[0]))
+    if n < 2:
+        raise AnalysisBroken('only %d scaled decompositions found (TridiagEigen and UpperHessenbergEigen confirmed)' % n)
+
+
+def zero_test_covers_hessenberg(ctx, rule='zero-matrix-test-covers-all-entries'):
+    """The Schur class takes a short cut (T = H, U = I) when the 1-norm it computes is exactly zero.  That is only right if the
+    norm covers EVERY entry of an upper Hessenberg matrix: rows 0 .. min(n-1, j+1) of column j -- the sub-diagonal included.
+    The row range summed for column j is extracted and evaluated for all 1 <= n <= 7, 0 <= j < n."""
+    fns = ctx.F.insts('Spectra::UpperHessenbergSchur::upper_hessenberg_l1_norm')
+    if not fns:
+        raise AnalysisBroken('upper_hessenberg_l1_norm not instantiated')
+
+    def ev(t, env):
+        if t[0] == 'lit':
+            return int(t[1])
+        if t[0] in ('L', 'P'):
+            return env[t[1]]
+        if t[0] == 'call' and t[1] in ('min', 'max') and len(t) == 4:
+            a, b = ev(t[2], env), ev(t[3], env)
+            return min(a, b) if t[1] == 'min' else max(a, b)
+        if t[0] in ('+', '-') and len(t) == 3:
+            a, b = ev(t[1], env), ev(t[2], env)
+            return a + b if t[0] == '+' else a - b
+        if t[0] in ('rows', 'cols'):
+            return env['@n']
+        raise AnalysisBroken('row range %s outside the integer domain' % show(t))
+    for fn in fns[:1]:
+        px = fn.locals[fn.params[0]]['name']
+        loops = [x for x in fn.walk() if x['k'] == 'ForStmt']
+        adds = [sym(fn, x, inline=False) for x in fn.walk() if x.get('op') == '+=' and x['k'] in ('CompoundAssignOperator', 'CXXOperatorCallExpr', 'BinaryOperator')]
+        if len(loops) != 1 or len(adds) != 1:
+            raise AnalysisBroken('%s: accumulation not recognised' % fn.qname)
+        lp = loops[0]
+        init = fn.node(lp['init'])
+        jv = fn.locals[init['decls'][0]['var']]['name']
+        cond = sym(fn, lp['cond'], inline=False)
+        t = adds[0][2]
+        # sum(cwiseAbs(VIEW)) with VIEW a head / segment of column j
+        view = None
+        for y in _walk(t):
+            if isinstance(y, tuple) and y[0] in ('segment', 'head') and isinstance(y[1], tuple) and y[1][0] == 'col' and y[1][1] == ('P', px) and y[1][2] == ('L', jv):
+                view = y
+            elif isinstance(y, tuple) and y[0] == 'col' and y[1] == ('P', px) and y[2] == ('L', jv) and view is None:
+                view = ('whole',)
+        probs = []
+        if 'cwiseAbs' not in show(t) and 'abs' not in show(t):
+            probs.append('entries are not taken in absolute value (cancellation can make a non-zero matrix look zero)')
+        if view is None:
+            raise AnalysisBroken('%s: summed view not recognised: %s' % (fn.qname, show(t)))
+        ndecl = {}
+        for x in fn.walk():
+            if x['k'] == 'DeclStmt':
+                for d in x['decls']:
+                    if 'init' in d:
+                        ndecl[fn.locals[d['var']]['name']] = sym(fn, d['init'], inline=False)
+        for n_ in range(1, 8):
+            for j in range(n_):
+                env = {jv: j, '@n': n_}
+                for k_, v in ndecl.items():
+                    if isinstance(v, tuple) and v[0] in ('rows', 'cols'):
+                        env[k_] = n_
+                if view[0] == 'whole':
+                    lo, hi = 0, n_
+                elif view[0] == 'head':
+                    lo, hi = 0, ev(view[2], env)
+                else:
+                    lo = ev(view[2], env)
+                    hi = lo + ev(view[3], env)
+                want_hi = min(n_, j + 2)
+                if lo > 0 or hi < want_hi:
+                    probs.append('n = %d, column %d: rows [%d, %d) are summed, the Hessenberg column has rows [0, %d)' % (n_, j, lo, hi, want_hi))
+                if hi > n_:
+                    probs.append('n = %d, column %d: the view runs past the column' % (n_, j))
+        from .eigsbase import loop_range
+        rg = loop_range(fn, lp)
+        dims = [k_ for k_, v in ndecl.items() if isinstance(v, tuple) and v[0] in ('rows', 'cols') and v[1] == ('P', px)]
+        if rg is None or rg[1] != ('lit', '0') or not (rg[2][0] == 'L' and rg[2][1] in dims or (rg[2][0] in ('rows', 'cols') and rg[2][1] == ('P', px))):
+            probs.append('the columns summed are not 0 .. n-1 (%s)' % (rg,))
+        ctx.check(not probs, rule, 'UpperHessenbergSchur::upper_hessenberg_l1_norm', fn.qname,
+                  'the norm behind the zero-matrix short cut sums |.| over rows 0 .. min(n-1, j+1) of every column j (28 (n, j) cases)' if not probs else '; '.join(probs[:3]))
+    # and the short cut is taken on exactly that norm
+    for fn in ctx.F.insts('Spectra::UpperHessenbergSchur::compute')[:1]:
+        decl = {}
+        for x in fn.walk():
+            if x['k'] == 'DeclStmt':
+                for d in x['decls']:
+                    if 'init' in d:
+                        decl[fn.locals[d['var']]['name']] = sym(fn, d['init'], inline=False)
+        guards = [sym(fn, i['cond'], inline=False) for i in fn.walk() if i['k'] == 'IfStmt']
+        nm = [k_ for k_, v in decl.items() if isinstance(v, tuple) and (v[0] == 'upper_hessenberg_l1_norm' or (v[0] == 'call' and v[1] == 'upper_hessenberg_l1_norm'))]
+        ok = len(nm) == 1 and any(g[0] == '!=' and ('L', nm[0]) in g[1:] and ('lit', '0') in g[1:] for g in guards) and decl[nm[0]][-1] == ('F', 'm_T')
+        ctx.check(ok, rule, 'UpperHessenbergSchur::compute/short-cut', fn.qname,
+                  'the iteration is skipped exactly when the 1-norm of the working copy is zero' if ok else 'zero-matrix short cut not recognised')
+
+
+def _walk(t):
+    yield t
+    if isinstance(t, tuple):
+        for x in t[1:]:
+            if isinstance(x, tuple):
+                for y in _walk(x):
+                    yield y
+
+
 def run(ctx):
+    scale_divisors_guarded(ctx)
+    zero_test_covers_hessenberg(ctx)
     cap_implies_throw(ctx)
     exceptional_shift_accounting(ctx)
     exact_conventions(ctx)
